@@ -285,6 +285,8 @@ func (e *Env) typeByName(t string) (string, types.Type) {
 		return "Ledger", nil
 	case "Ctx":
 		return "Ctx", nil
+	case "error":
+		return "Int", types.Universe.Lookup("error").Type()
 	}
 	if strings.HasPrefix(t, "[]") {
 		s, et := e.typeByName(t[2:])
@@ -656,6 +658,16 @@ func (e *Env) callExpr(n *ECall) Val {
 				}
 			}
 			return e.fail("store(ctx): receiver has no storeService/storeKey field")
+		case "box":
+			v := argv(0)
+			if v.Typ == nil || v.S == "Iface" {
+				return e.fail("box: needs a concrete typed value")
+			}
+			nv := Val{S: "Iface", T: "(mkI " + fc.B.Tag(v.Typ) + " " + fc.B.Box(v.Typ, v.T) + ")"}
+			nv.Fn = &FnVal{Special: "dyn", Data: []Val{v}}
+			return nv
+		case "strings1":
+			return Val{S: "(Slice String)", T: "(mkS false 1 (store ((as const (Array Int String)) \"\") 0 " + str(0) + "))", Typ: types.NewSlice(types.Typ[types.String])}
 		case "vget", "vhas":
 			v := argv(0)
 			if v.S != "View" {
@@ -728,7 +740,7 @@ func (e *Env) callExpr(n *ECall) Val {
 		case "substr":
 			return strVal("(str.substr " + str(0) + " " + argv(1).T + " " + argv(2).T + ")")
 		case "errIs":
-			return boolVal(eq("(err_root "+argv(0).T+")", argv(1).T))
+			return boolVal(and(not(eq(argv(0).T, "0")), eq("(err_root "+argv(0).T+")", "(err_root "+argv(1).T+")")))
 		case "isNil":
 			v := argv(0)
 			switch {
